@@ -3,7 +3,7 @@ CONSTANTS
   DEVS <- c_NoDevs
   MAXOPS = 2
   BASES = {"B0", "B1", "B2"}
-  CHAINS = {"main", "test"}
+  CHAINS = {"main", "main2", "test"}
   REJBUDGET = 99
 VIEW View
 INVARIANTS InvRejectNoChange InvBinding InvRightfulServed InvNoOverRejection
